@@ -11,7 +11,7 @@ import os
 
 from verifkit import Infra, read_ndjson, write_ndjson
 
-STARTS = {"AStart", "BStart", "SStart", "Conn", "SyncEnd", "Note"}
+STARTS = {"AStart", "BStart", "SStart", "Conn", "SyncEnd", "Note", "GReset"}
 MAX_REJECTIONS = 8
 
 
@@ -123,6 +123,8 @@ def judge_msg(case):
 
 def judge_sync(case):
     e = case[-1]
+    if e.get("timeout"):
+        return True, "the harness gave up on this pair (absolute cap)"
     if not e["validBest"] or not e["storeOK"]:
         return False, "after Sync (%s) best/store is not the valid imported prefix" % e["case"]
     if e["prefers"] and not e["converged"]:
@@ -130,14 +132,42 @@ def judge_sync(case):
             return False, ("the connection to an honest peer with a preferred head was lost during Sync and the node never reached "
                            "that head (%s, local head %s, remote head %s)" % (e["case"], e.get("H"), e.get("R")))
         if e.get("stalled"):
-            return False, ("Sync never adopted the head of a connected peer that its fork choice prefers%s (%s): 20 s = ten sync timer "
-                           "ticks after the handshake" % (" (exact total-score tie, smaller id)" if e.get("tie") else "", e["case"]))
+            return False, ("Sync never adopted the head of a connected peer that its fork choice prefers%s (%s): no request on the "
+                           "connection and no import for six ticks of the sync timer" % (" (exact total-score tie, smaller id)" if e.get("tie") else "", e["case"]))
         return False, "Sync finished without reaching the peer's better head (%s)" % e["case"]
     return True, "peer not dropped as Sync.tla says"
 
 
-def judge(case):
+def judge_gossip(case, off=None):
+    """Block / tx propagation run. Observables: the messages themselves (a push the rules forbid), chain and pool at rest."""
+    for e in case:
+        if e["e"] == "Untouched" and not e["same"]:
+            return False, "hostile announcements / blocks / txs changed a chain store or a pool"
+        if e["e"] == "TxSubmit" and e["ok"] != (3000 <= e["t"] < 4000):
+            return False, "the pool %s tx %d" % ("accepted invalid" if e["ok"] else "refused valid", e["t"])
+    produced = {e["b"] for e in case if e["e"] == "Produce"} | set(case[0].get("base", []))
+    accepted = {e["t"] for e in case if e["e"] == "TxSubmit" and e["ok"]}
+    for e in case:
+        if e["e"] == "State":
+            if set(e["have"]) - produced or set(e["pool"]) - accepted:
+                return False, "node %d holds blocks / txs nobody produced: %s %s" % (e["n"], e["have"], e["pool"])
+            if produced - set(e["have"]) or accepted - set(e["pool"]):
+                return False, ("not propagated: with the network at rest node %d lacks blocks %s / txs %s"
+                               % (e["n"], sorted(produced - set(e["have"])), sorted(accepted - set(e["pool"]))))
+    if off is not None and off < len(case):
+        e = case[off]
+        if e["e"] == "Send" and e["from"] != 9 and e["t"] in ("full", "ann", "tx", "get", "txs"):
+            what = {"get": "a fetch no announcement of an unknown block allows",
+                    "txs": "txs the requester is marked for / that are not in the pool"}.get(
+                        e["t"], "a push to a peer that is marked as knowing it (sent it to us or got it from us before)")
+            return False, "node %d sent %s(%s) to peer %d: %s" % (e["from"], e["t"], e["id"] or e.get("set"), e["to"], what)
+    return True, "messages, chain and pool right; marks / decision bookkeeping differ from Gossip.tla"
+
+
+def judge(case, off=None):
     k = case[0]["e"]
+    if k == "GReset":
+        return judge_gossip(case, off)
     if k == "AStart":
         return judge_ancestor(case)
     if k in ("BStart", "SStart"):
@@ -151,6 +181,8 @@ def judge(case):
 
 def case_label(case):
     h = case[0]
+    if h["e"] == "GReset":
+        return "gossip run " + str(h.get("case"))
     if h["e"] == "AStart":
         return "ancestor H=%d A=%d R=%d" % (h["H"], h["A"], h["R"])
     if h["e"] in ("BStart", "SStart"):
@@ -163,6 +195,10 @@ def case_label(case):
 
 def signature(case, why):
     h = case[0]
+    if h["e"] == "GReset":
+        kind = ("not-propagated" if "not propagated" in why else "state-changed" if "changed" in why or "holds" in why
+                else "pool-verdict" if "the pool" in why else "forbidden-send")
+        return "gossip:%s:%s" % (kind, h.get("case"))
     if h["e"] == "AStart":
         if case[-1].get("err"):
             return "ancestor-fails:" + ("remote-shorter" if h["R"] < h["H"] else "remote-not-shorter")
@@ -170,7 +206,8 @@ def signature(case, why):
     if case[-1].get("status") == "panic":
         return "panic:handleBlockStream"
     if case[-1].get("status") == "hang":
-        return "download-hangs:handler-error-with-full-pipeline"
+        kind = h.get("case", "//").split("/")[2].split("@")[0] if h["e"] == "BStart" else "stream"
+        return "download-hangs:" + ("handler-error-with-full-pipeline" if kind == "flood" else kind)
     if h["e"] == "SStart":
         return "stream:" + str(case[-1].get("status"))
     if h["e"] == "BStart":
@@ -186,7 +223,7 @@ def signature(case, why):
 
 
 # -------------------------------------------------------------------------------------------------- validation
-def validate(ctx, events, label, how):
+def validate(ctx, events, label, how, module="Trace_Sync"):
     """Validates a concatenated trace. Returns (cases_accepted, drifts). Violations go through ctx.report."""
     cases = split_cases(events)
     pending = list(range(len(cases)))
@@ -198,7 +235,7 @@ def validate(ctx, events, label, how):
         evs = [e for k in pending for e in cases[k]]
         path = os.path.join(ctx.tmp("val-" + label), "trace-%d.ndjson" % rejections)
         write_ndjson(path, evs)
-        ok, hwm, ln, r = ctx.validate_trace("net", "Trace_Sync", path, timeout=1500)
+        ok, hwm, ln, r = ctx.validate_trace("net", module, path, timeout=1500)
         ctx.cov["states"] += r.distinct
         ctx.cov["transitions"] += r.generated
         if ok:
@@ -214,10 +251,10 @@ def validate(ctx, events, label, how):
         if bad is None:
             raise Infra("trace rejected but offending case not found (hwm=%d len=%d)\n%s" % (hwm, ln, r.out[-2000:]))
         case = cases[bad]
-        holds, why = judge(case)
+        holds, why = judge(case, off)
         inv = " (invariant %s)" % r.invariant if r.invariant else ""
-        what = "%s: %s, event #%d %s rejected by Trace_Sync%s -> %s" % (
-            label, case_label(case), off, json.dumps(case[off], sort_keys=True)[:300], inv, why)
+        what = "%s: %s, event #%d %s rejected by %s%s -> %s" % (
+            label, case_label(case), off, json.dumps(case[off], sort_keys=True)[:300], module, inv, why)
         if holds:
             drifts.append(what)
         else:
@@ -239,18 +276,33 @@ def validate(ctx, events, label, how):
         case = cases[k]
         path = os.path.join(ctx.tmp("val-" + label), "suspect-%d.ndjson" % k)
         write_ndjson(path, case)
-        ok, hwm, ln, r = ctx.validate_trace("net", "Trace_Sync", path, timeout=600)
+        ok, hwm, ln, r = ctx.validate_trace("net", module, path, timeout=600)
         holds, why = judge(case)
         if ok:
-            raise Infra("%s: %s violates C19 (%s) but Trace_Sync accepts it: the trace specification is too weak"
+            raise Infra("%s: %s violates the property (%s) but the trace specification accepts it: it is too weak"
                         % (label, case_label(case), why))
-        what = "%s: %s, event #%d %s rejected by Trace_Sync -> %s" % (
+        what = "%s: %s, event #%d %s rejected by the trace specification -> %s" % (
             label, case_label(case), hwm, json.dumps(case[min(hwm, len(case) - 1)], sort_keys=True)[:300], why)
         rp = ctx.save_replay("%s-case%d.json" % (label, k),
                              {"how": how, "offending_index": hwm, "offending_event": case[min(hwm, len(case) - 1)],
                               "why": why, "trace": case})
         ctx.report(signature(case, why), what, rp)
     return accepted, drifts
+
+
+def real_code_crash(out):
+    """A crash of the driver counts as an observation on the real code only if the crashing goroutine runs through thor
+    code. Machine trouble (OOM, thread limits) is filtered by verifkit before; a crash inside the harness itself, a runtime
+    fatal error without a thor frame or a kill is infrastructure."""
+    if "panic:" not in out and "fatal error: concurrent map" not in out and "fatal error: all goroutines are asleep" not in out:
+        return False
+    i = max(out.find("panic:"), out.find("fatal error:"))
+    tail = out[i:]
+    j = tail.find("goroutine ")
+    if j < 0:
+        return False
+    block = tail[j:].split("\n\n")[0]                       # the first (crashing) goroutine
+    return "github.com/vechain/thor/v2/" in block
 
 
 def run_driver(ctx, name, args, label, timeout=1800):
@@ -262,7 +314,7 @@ def run_driver(ctx, name, args, label, timeout=1800):
     if rc is None:
         raise Infra("%s timed out (%s)" % (name, label))
     if rc != 0:
-        if "panic:" in o or "goroutine " in o or "fatal error" in o:
+        if real_code_crash(o):
             rp = ctx.save_replay("panic-%s-seed%d.txt" % (label, ctx.seed), o[-30000:])
             ctx.report("panic:" + label, "real code panicked in %s %s: %s" % (name, " ".join(args), o.strip().splitlines()[:3]), rp)
             return None, None
@@ -272,13 +324,13 @@ def run_driver(ctx, name, args, label, timeout=1800):
     return events, stats
 
 
-def binding_demo(ctx, events, label, corrupt):
+def binding_demo(ctx, events, label, corrupt, module="Trace_Sync"):
     """corrupt(cases) -> list of (name, events); every variant must be REJECTED by Trace_Sync."""
     cases = split_cases(events)
     for name, evs in corrupt(cases):
         path = os.path.join(ctx.tmp("demo-" + label), name + ".ndjson")
         write_ndjson(path, evs)
-        ok, hwm, ln, r = ctx.validate_trace("net", "Trace_Sync", path, timeout=600)
+        ok, hwm, ln, r = ctx.validate_trace("net", module, path, timeout=600)
         if ok:
             raise Infra("binding demonstration failed: %s/%s was accepted by Trace_Sync" % (label, name))
         ctx.cov.setdefault("binding_demo", []).append("%s: %s rejected at event %d of %d" % (label, name, hwm, ln))
